@@ -36,6 +36,14 @@ def queries(ctx):
             if e > 200 and e != 1024: continue
             add("mpz_cmp_d.su%d.e%d" % (su, e), "C11_mpz_dbl.c", base, {"FN": 3, "SU": "(%d)" % su, "E": "(%d)" % e}, 12 if e != -1023 else 70, ["mpz/cmp_d.c:mpz_cmp_d"])
             add("mpz_cmpabs_d.su%d.e%d" % (su, e), "C11_mpz_dbl.c", base, {"FN": 4, "SU": "(%d)" % su, "E": "(%d)" % e}, 12 if e != -1023 else 70, ["mpz/cmpabs_d.c:mpz_cmpabs_d"])
+    K = 2 if quick else 3
+    for s1n in range(-K, K + 1):
+        for s1d in range(1, K + 1):
+            for s2n in range(-K, K + 1):
+                for s2d in range(1, K + 1):
+                    if quick and abs(s1n) != abs(s2n) and s1d != s2d: continue
+                    add("mpq_equal.a%d_%d.b%d_%d" % (s1n, s1d, s2n, s2d), "C11_mpq_equal.c", ["mpq/equal.c"] + MPZ_BASE, {"S1N": "(%d)" % s1n, "S1D": s1d, "S2N": "(%d)" % s2n, "S2D": s2d, "SAME": 0}, K + 4, ["mpq/equal.c:mpq_equal"])
+    add("mpq_equal.same", "C11_mpq_equal.c", ["mpq/equal.c"] + MPZ_BASE, {"S1N": -2, "S1D": 2, "S2N": 1, "S2D": 1, "SAME": 1}, K + 4, ["mpq/equal.c:mpq_equal"])
     return qs
 
 MANIFEST = {
